@@ -130,7 +130,7 @@ package db
 //@ macro COLRULE(ct, c, col) = col.Column == c.Name && col.Type == c.Type && col.Default == c.Default && col.Collate == c.Collate && (col.Rowid <==> (c.PrimaryKey && !ct.WithoutRowid && ISROWID(false, c.Type, c.PrimaryKeyDir))) && (col.Null <==> ite(c.PrimaryKey, !ct.WithoutRowid && c.Null, c.Null))
 //@ macro COLSTABLE(ct, c, col) = col.Column == c.Name && col.Type == c.Type && (col.Rowid ==> !ct.WithoutRowid && streq(str_upper(col.Type), "INTEGER"))
 //@ func db.newCreateTable
-//@   props C10 C05
+//@   props C10 C05 C03
 //@   modifies alloc mem heap box created
 //@   ghost-entry created = 0
 //@   ensures [result] r1 == nil ==> r0 != nil && fresh(r0)
